@@ -64,8 +64,8 @@ def node_level(ck, tier):
     with chaingen.Env(period=50) as env0:
         tg = chaingen.TreeGen(env0, keys, rng)
         n = tg.genesis
-        for _ in range(5):
-            n = tg.extend(n, dt=100)
+        for j_ in range(5):
+            n = tg.extend(n, dt=100) if j_ != 3 else tg.extend(n, txs=[], fees=0, dt=100)     # main[4]: reward transaction only
         main = list(tg.nodes)
     k = 4                                           # main[4] is a checkpointed height in the second half of the probe
     for horizon in (False, True):
@@ -153,6 +153,10 @@ def run(tier, seed):
                 try:
                     pf = MT.get_proof(tree, i)
                     ph = pf.hash()
+                    repr(pf)
+                    if pf.hash() != ph:
+                        ck.violation('proof-not-stable', 'an inclusion proof hashes to a different value the second time it is hashed '
+                                     '(position %d of %d)' % (i, len(l)), {'list': [x.hex() for x in l], 'index': i})
                 except Exception as e:
                     ck.violation('proof-raises', 'get_proof raises %s' % type(e).__name__,
                                  {'list': [x.hex() for x in l], 'index': i})
@@ -162,7 +166,14 @@ def run(tier, seed):
                 if ph != root:
                     ck.violation('proof-misses-root', 'inclusion proof for position %d of a %d-element list does not hash '
                                  'to the commitment' % (i, len(l)), {'list': [x.hex() for x in l], 'index': i})
-                if (i, l[i]) not in proof_leaves(pf):
+                try:
+                    leaves_ = proof_leaves(pf)
+                except Exception as e:
+                    leaves_ = []
+                    ck.violation('proof-not-walkable', 'an inclusion proof cannot be walked after it was hashed (%s): its nodes do not '
+                                 'hold their children' % type(e).__name__, {'list': [x.hex() for x in l], 'index': i})
+                    continue
+                if (i, l[i]) not in leaves_:
                     ck.violation('proof-lacks-entry', 'inclusion proof for position %d of a %d-element list does not '
                                  'contain the entry at that position' % (i, len(l)),
                                  {'list': [x.hex() for x in l], 'index': i})
